@@ -285,4 +285,112 @@ theorem number_insert_gen (c : Cfg) (o : POpts) (hG : GenStrip c o) (hresI : Res
           simp only at g1 g2
           exact ⟨rfl, rfl, rfl, rfl, g1, g2, rfl⟩
 
+/-- **none of the digit iterators of the run over `s` stops on a separator**: the cursor after `is_consumed`'s `peek`
+does not stand on one, and neither do the cursors after the integer, fraction and exponent digits -/
+def NonStuck (c : Cfg) (o : POpts) (s : List Nat) : Prop :=
+  ∀ neg b1 v b0, parseMantissaSign c (Bytes.new s) = .ok (neg, b1) → peek c .integer b1 = .ok (v, b0) →
+    (∀ x, s[b0.index]? = some x → c.isSep x = false) ∧ IntNormal c o s b0
+
+/-- **insert_preserves, general form**: the stripped input is accepted as a number, no run of separators directly
+precedes a sign, no digit iterator of the run over `s` stops on a separator ⟹ `s` is accepted as the same number. -/
+theorem parseFloatSyntax_insert_gen (c : Cfg) (o : POpts) (hG : GenStrip c o) (hresI : Rescan c .integer)
+    (hresF : Rescan c .fraction) (s : List Nat) (hb256 : ∀ x ∈ s, x < 256) (hP : NoSepBeforeSign c s)
+    (hNS : NonStuck c o s) (fv : Bool) (n' : Number) (cnt : Nat)
+    (h : parseFloatSyntax c o false (nonSep c s) fv = .ok (.number n' cnt)) :
+    ∃ n, parseFloatSyntax c o false s fv = .ok (.number n s.length) ∧ NumRel c n n' := by
+  unfold parseFloatSyntax at h ⊢
+  simp only [] at h ⊢
+  cases hps : parseMantissaSign c (Bytes.new (nonSep c s)) with
+  | error e => simp [hps, bind, Except.bind] at h
+  | ok r' =>
+    obtain ⟨neg, b1'⟩ := r'
+    have hr0 := stripRel_new c s
+    have hps' := hps
+    unfold parseMantissaSign at hps'
+    obtain ⟨r, h1, h2, h3, h4⟩ := parseSign_strip_rev_g c hG.rel.debug hG.sepPlus hG.sepMinus s _ _ _ _ _ _ hr0
+      (hP.at _ rfl) (neg, b1') hps'
+    obtain ⟨neg0, b1⟩ := r
+    simp only at h2 h3 h4
+    subst h2
+    have hpsL : parseMantissaSign c (Bytes.new s) = .ok (neg, b1) := by unfold parseMantissaSign; exact h1
+    have hv1 : Bytes.Valid b1 := by
+      unfold Bytes.Valid
+      have := h4 (by simp [Bytes.new])
+      simp only [new_slc] at this
+      rw [h3.1]; exact this
+    have hic1 : b1.ic = 0 ∧ b1.fc = 0 := by
+      unfold parseSign at h1
+      simp only [step_release c hG.rel.debug, bind, Except.bind, pure, Except.pure] at h1
+      split at h1
+      · split at h1
+        · simp only [Except.ok.injEq, Prod.mk.injEq] at h1; rw [← h1.2]; exact ⟨rfl, rfl⟩
+        · cases h1
+      · simp only [Except.ok.injEq, Prod.mk.injEq] at h1; rw [← h1.2]; exact ⟨rfl, rfl⟩
+      · split at h1
+        · cases h1
+        · simp only [Except.ok.injEq, Prod.mk.injEq] at h1; rw [← h1.2]; exact ⟨rfl, rfl⟩
+    cases hp : peek c .integer b1 with
+    | error e => exact absurd ((peek_error_iff c .integer b1).mp ⟨e, hp⟩) (hG.rel.reach _)
+    | ok pr =>
+      obtain ⟨v, b0⟩ := pr
+      obtain ⟨hN0, hIN⟩ := hNS neg b1 v b0 hpsL hp
+      have hsp := peek_spec c .integer b1 b0 v hv1 hp
+      have hb0s : b0.slc = s := by rw [hsp.1]; exact h3.1
+      have hv0 : b0.index ≤ s.length := by
+        have := hsp.2.2.2.2.2.1; unfold Bytes.Valid at this; rw [hb0s] at this; exact this
+      have hr00 : StripRel c s b0 b1' := h3.skip .integer v hv1 hp
+      have hN0n : Normal c b0 := by intro x hx; rw [hb0s] at hx; exact hN0 x hx
+      have hget := hr00.get hN0n
+      have hn1' : NoSep c b1'.slc := h3.noSep
+      -- the stripped run
+      simp only [hps, bind, Except.bind] at h
+      unfold isConsumed at h ⊢
+      simp only [hG.format, Bool.not_true, Bool.false_eq_true, if_false, bind, Except.bind,
+        peek_nosep c .integer b1' hn1' (hG.rel.reach _), pure, Except.pure] at h
+      simp only [hpsL, bind, Except.bind, hG.format, Bool.not_true, Bool.false_eq_true, if_false, hp, pure, Except.pure]
+      have hvv : v = b1'.slc[b1'.index]? := by rw [hget, hsp.2.2.2.2.2.2]
+      rw [hvv]
+      cases hnone : (b1'.slc[b1'.index]?).isNone with
+      | true =>
+        simp only [hnone, if_true] at h
+        split at h <;> simp [pure, Except.pure] at h
+      | false =>
+        simp only [hnone, Bool.false_eq_true, if_false] at h ⊢
+        cases hcn : parseCompleteNumber c o b1' neg fv with
+        | error e =>
+          exfalso
+          simp only [hcn] at h
+          cases e with
+          | err k i =>
+            simp only at h
+            cases hsp2 : parseSpecialComplete c o b1' with
+            | error e2 => simp [hsp2] at h
+            | ok sp =>
+              cases sp with
+              | none => simp [hsp2] at h
+              | some x => simp [hsp2] at h
+          | panic t => simp at h
+          | fault t => simp at h
+        | ok n0 =>
+          simp only [hcn, Except.ok.injEq, Parsed.number.injEq] at h
+          obtain ⟨rfl, _⟩ := h
+          unfold parseCompleteNumber at hcn ⊢
+          cases hpn : parseNumber c false o b1' neg fv with
+          | error e => simp [hpn, bind, Except.bind] at hcn
+          | ok rn' =>
+            obtain ⟨nn', count'⟩ := rn'
+            simp only [hpn, bind, Except.bind] at hcn
+            split at hcn
+            · next hfull =>
+              simp only [pure, Except.pure, Except.ok.injEq] at hcn
+              subst hcn
+              have hlen' : count' = (nonSep c s).length := by
+                simp only [Bytes.bufferLength, h3.2.1] at hfull; exact hfull
+              obtain ⟨n, hn, hrel⟩ := number_insert_gen c o hG hresI hresF s hb256 hP b0 b1' hr00 hv0
+                (by rw [hsp.2.1]; exact hic1.1) (by rw [hsp.2.2.1]; exact hic1.2) (Or.inr hN0) hIN false neg fv nn' count'
+                hpn hlen'
+              refine ⟨n, ?_, hrel⟩
+              simp only [hn, bind, Except.bind, Bytes.bufferLength, hb0s, if_true, pure, Except.pure]
+            · cases hcn
+
 end LexVerif.Proof.Sep
